@@ -482,7 +482,20 @@ def _symstr_method(it, s, name, args, kwargs):
         return wrap(z3.Contains(s.e, to_z3(args[0])))
     if name == 'replace' and len(args) == 2 and hasattr(z3, 'ReplaceAll'):
         raise OutsideSubset("str.replace on a flat symbolic string (use the structured-string domain)")
+    if name in STR_FUNCTIONS and all(isinstance(a, str) for a in args) and not kwargs:
+        # a pure function of the string: abstracted as an uninterpreted function (contracts name it with str_function)
+        return str_function(name, *args).apply(s)
     raise OutsideSubset("str.%s on a symbolic string" % name)
+
+
+STR_FUNCTIONS = ('rstrip', 'lstrip', 'strip', 'lower', 'upper', 'title', 'capitalize', 'expandtabs')
+
+
+def str_function(name, *args):
+    """the uninterpreted function that stands for  s.<name>(*args)  on a symbolic string (args concrete)"""
+    from .values import Uninterp
+    tag = '_'.join('%02x' % ord(ch) for a in args for ch in a)
+    return Uninterp('str_%s_%s' % (name, tag or 'noargs'))
 
 
 def _split_registered(it, s, sep, maxsplit):
